@@ -17,7 +17,7 @@ BATCH = 4096
 
 def model_check(ctx):
     if ctx.quick:
-        ctx.mc("Brush", "MC_Brush_q.cfg", label="all {-1,+1} designs on 1x1, 2x2, 3x3, 3x4 x brushes d1..d4")
+        ctx.mc("Brush", "MC_Brush_q.cfg", label="all {-1,+1} designs on 1x1, 2x2, 3x3, 3x4 x brushes d1, d2, d3")
     else:
         ctx.mc("Brush", "MC_Brush_t.cfg", label="all {-1,+1} designs on grids up to 4x4 and 2x5 x brushes d1..d4", timeout=3 * 3600)
         ctx.mc("Brush", "MC_Brush_t3.cfg", label="all {-1,0,+1} designs on 3x3 x brushes d2, d3")
@@ -53,6 +53,8 @@ def gen_cases(ctx):
         n = dm[0] * dm[1]
         for d in ds:
             combos = [(a, b) for a in range(3) for b in range(2)] if dm == (3, 3) else [(gi % 3, (gi // 3) % 2)]
+            if ctx.quick and dm == (3, 3):
+                combos = [(0, 0), (1, 1), (2, 0), (2, 1)][: 4 if d == 2 else 3]
             gi += 1
             for axis, bg in combos:
                 for k in range(2**n):
